@@ -69,6 +69,8 @@ func lossyConversion(from, to types.Type) bool {
 func checkC19(r *core.Run, p *core.Program) {
 	r.Rule("C19.lossy-op", "in the numeric conversion functions (builder set*From* helpers and package conversions), every operation that can change the mathematical value of data derived from the input — a narrowing / sign-changing / float<->int conversion, reflect SetInt/SetUint/SetFloat into a possibly narrower kind, big.Int.Int64/Uint64, big.Float.Int64/Uint64/Float64/Int, a shift of the input — is guarded: dominated by a range or sign test on the source that leaves the function, or followed by a round-trip comparison of the stored/converted value with the original whose failing branch raises, or its accuracy result is compared with big.Exact, or its error result is checked.")
 	r.Rule("C19.sign", "in every OnNegativeInt implementation the magnitude parameter is only used in ways that carry the sign: negated, given to a Neg/negative-form writer or a negative type code, converted to the negative-magnitude key type, compared, or forwarded to another OnNegativeInt; it never reaches a positive/unsigned sink un-negated.")
+	r.Rule("C19.decimal-construct", "a big decimal is not assembled by hand from a number that can be negative: in a composite literal of apd.Decimal the coefficient is never the dereference of a caller's *big.Int (negative coefficient, and the copy shares the caller's digits), never *big.NewInt(-x) (wraps for the smallest int64), and *big.NewInt(x) of a signed x only where the path excludes x < 0; apd.New / apd.NewWithBigInt split magnitude and sign correctly.")
+	checkC19DecimalConstruct(r, p)
 	r.Rule("C19.big-fits", "(*big.Int).Uint64() and (*big.Int).Int64() - which silently return the low 64 bits of anything - are only taken on paths whose conditions imply IsUint64() / IsInt64() of the same value (a bit-length test alone does not exclude negative values).")
 	checkC19BigFits(r, p)
 	r.Rule("C19.uint-to-int", "a uint64 parameter is converted to int64 only on paths whose conditions exclude magnitudes above 2^63 (decided by evaluating the comparisons and range predicates on the path for 2^63+1 and 2^64-1): a larger magnitude would wrap to a small or positive number.")
@@ -676,4 +678,79 @@ func uintPathFeasible(p *core.Program, info *types.Info, conds []ast.Expr, pols 
 		}
 	}
 	return true
+}
+
+func checkC19DecimalConstruct(r *core.Run, p *core.Program) {
+	n := 0
+	for _, rel := range []string{"conversions", "builder", "iterator", "cbe", "cte", "rules"} {
+		pkg := p.Pkg(rel)
+		info := pkg.TypesInfo
+		a := newAnalysis(p)
+		for _, f := range funcsOf(pkg) {
+			sig := f.Obj.Type().(*types.Signature)
+			isParam := func(o types.Object) bool {
+				for i := 0; i < sig.Params().Len(); i++ {
+					if sig.Params().At(i) == o {
+						return true
+					}
+				}
+				return false
+			}
+			ast.Inspect(f.Decl.Body, func(nd ast.Node) bool {
+				lit, ok := nd.(*ast.CompositeLit)
+				if !ok || !typeIs(info.TypeOf(lit), "github.com/cockroachdb/apd/v2", "Decimal") {
+					return true
+				}
+				for _, el := range lit.Elts {
+					kv, ok := el.(*ast.KeyValueExpr)
+					if !ok {
+						continue
+					}
+					if k, _ := kv.Key.(*ast.Ident); k == nil || k.Name != "Coeff" {
+						continue
+					}
+					n++
+					key := fmt.Sprintf("%s|Coeff: %s", f.Name(), exprStr(kv.Value))
+					st, isStar := stripParens(kv.Value).(*ast.StarExpr)
+					if !isStar {
+						r.Pass("C19.decimal-construct", key, kv.Pos(), "")
+						continue
+					}
+					inner := stripParens(st.X)
+					if o := objOf(info, inner); o != nil && isParam(o) {
+						r.Fail("C19.decimal-construct", key, kv.Pos(), "the coefficient is a struct copy of the caller's *big.Int "+o.Name()+": a negative number keeps a negative coefficient with Negative unset (it then compares and encodes as positive), and the copy shares the caller's digits")
+						continue
+					}
+					if call, ok := inner.(*ast.CallExpr); ok && len(call.Args) == 1 && isFunc(callee(info, call), "math/big", "NewInt") {
+						arg := stripParens(call.Args[0])
+						if u, isNeg := arg.(*ast.UnaryExpr); isNeg && u.Op == token.SUB {
+							if constVal(info, u.X) == nil {
+								r.Fail("C19.decimal-construct", key, kv.Pos(), "the magnitude is computed as -"+exprStr(u.X)+" in int64: for the smallest int64 the negation wraps and the coefficient stays negative (the number prints with two minus signs)")
+								continue
+							}
+						}
+						if o := objOf(info, arg); o != nil && isParam(o) {
+							if b, isB := o.Type().Underlying().(*types.Basic); isB && b.Info()&types.IsUnsigned == 0 && b.Info()&types.IsInteger != 0 {
+								isNegTest := func(e ast.Expr) bool {
+									be, ok := stripParens(e).(*ast.BinaryExpr)
+									if !ok || be.Op != token.LSS || objOf(info, be.X) != o {
+										return false
+									}
+									k, isC := constInt(info, be.Y)
+									return isC && k == 0
+								}
+								conds, pols := pathConds(a, info, f, lit)
+								r.Check("C19.decimal-construct", key, kv.Pos(), impliesAtomValue(info, f, conds, pols, isNegTest, false),
+									"the signed value "+o.Name()+" becomes the coefficient on a path that does not exclude "+o.Name()+" < 0")
+								continue
+							}
+						}
+					}
+					r.Pass("C19.decimal-construct", key, kv.Pos(), "")
+				}
+				return true
+			})
+		}
+	}
+	r.Count("C19.decimal-construct big decimals assembled from a coefficient", n)
 }
